@@ -160,7 +160,11 @@ def cache_options(cfg):
     )
 
 
-def make_riscv(mode="single", hz=True, dcache=None, icache=None):
+_NEIGHBOURS = []  # a few other simulations kept alive in the process (see make_riscv)
+_MADE = [0]
+
+
+def _mk(mode, hz, dcache, icache):
     from architecture_simulator.simulation.riscv_simulation import RiscvSimulation
 
     return RiscvSimulation(
@@ -169,6 +173,27 @@ def make_riscv(mode="single", hz=True, dcache=None, icache=None):
         data_cache=cache_options(dcache),
         instruction_cache=cache_options(icache),
     )
+
+
+def make_riscv(mode="single", hz=True, dcache=None, icache=None):
+    """the simulation under test.  Every fifth call also builds - one before, one after it - a simulation with the
+    OPPOSITE configuration (other hazard flag, other write policy / replacement policy, caches swapped) and keeps it
+    alive: a simulation's configuration is its own and must not depend on what else lives in the process."""
+    _MADE[0] += 1
+    nb = _MADE[0] % 5 == 0
+
+    def other(c):
+        if not c:
+            return {"ib": 1, "bb": 1, "assoc": 2, "policy": "plru", "wt": True, "pen": 3}
+        return dict(c, wt=not c.get("wt"), policy="plru" if c.get("policy", "lru") == "lru" and c["assoc"] & (c["assoc"] - 1) == 0 else "lru", pen=c.get("pen", 0) + 2)
+
+    if nb:
+        _NEIGHBOURS.append(_mk("five", not hz, other(dcache), other(icache)))
+    sim = _mk(mode, hz, dcache, icache)
+    if nb:
+        _NEIGHBOURS.append(_mk("five" if mode != "five" else "single", not hz, other(icache), other(dcache)))
+        del _NEIGHBOURS[:-4]
+    return sim
 
 
 def build_instr(d, addr=0):
